@@ -88,7 +88,8 @@ def gen_input_from(rng, TABLES, COLUMNS, QNAMES, benign):
     if "emit_json_tags" in flags and rng.random() < 0.5:
         pkg["json_tags_case_style"] = rng.choice(["camel", "pascal", "snake", "none"])
     if rng.random() < 0.15:
-        cfg.setdefault("overrides", []).append({"go_type": "example.com/app/ids.Key", "column": "%s.%s" % (tabs[0], cols[tabs[0]][0])})
+        cfg.setdefault("overrides", []).append({"go_type": rng.choice(["github.com/google/uuid.UUID", {"import": "github.com/lib/pq", "package": "pqx", "type": "NullTime"}]),
+                                                "column": "%s.%s" % (tabs[0], cols[tabs[0]][0])})
     out = {"sqlc.json": json.dumps(cfg), "schema.sql": "\n".join(lines) + "\n", "query.sql": "\n\n".join(queries) + "\n"}
     if files_split:
         out["query.sql"] = "\n\n".join(queries[:1]) + "\n"
